@@ -4,7 +4,13 @@
 // text of the checkpoint after every iteration is stored there as ref_<k>.txt (reference run, no faults).
 // A marker "/vt-marker/ckpt/<k>/<size>" is 'opened' before the built-in callback is invoked with the
 // checkpoint of k results, so that the system-call log shows which checkpoint the calls belong to.
+// With -DVT_SHIM the kind "mpi" runs mpi_plain on three ranks (threads of the MPI shim) with the built-in mpi_callback.
+#ifdef VT_SHIM
+#include "mpi.h" // the shim
+#include "hep/mc-mpi.hpp"
+#else
 #include "hep/mc.hpp"
+#endif
 
 #include <cmath>
 #include <cstdio>
@@ -46,6 +52,26 @@ template <typename C> struct marking_cb
     }
 };
 
+#ifdef VT_SHIM
+template <typename C> struct marking_mpi_cb
+{
+    hep::mpi_callback<C> inner;
+    bool operator()(MPI_Comm comm, C const& c)
+    {
+        std::string t = text_of(c);
+        std::string m = "/vt-marker/ckpt/" + std::to_string(c.results().size()) + "/" + std::to_string(t.size());
+        int fd = open(m.c_str(), O_RDONLY); // never succeeds; logged by the interposer (every rank announces the same)
+        (void) fd;
+        if (refdir != "-" && vt_this_rank() == 0)
+        {
+            std::ofstream o((refdir + "/ref_" + std::to_string(c.results().size()) + ".txt").c_str());
+            o << t;
+        }
+        return inner(comm, c);
+    }
+};
+#endif
+
 template <typename C> static bool file_exists(std::string const& f) { std::ifstream in(f.c_str()); return (bool) in; }
 
 int main(int argc, char** argv)
@@ -68,6 +94,25 @@ int main(int argc, char** argv)
         c = hep::plain(hep::make_integrand<T>(f, 2), calls, c, marking_cb<C>{hep::callback<C>(hep::callback_mode::silent_and_write_chkpt, file)});
         final_text = text_of(c);
     }
+#ifdef VT_SHIM
+    else if (kind == "mpi")
+    {
+        typedef std::minstd_rand E;
+        // small integer values: the sums are exact, whatever order the ranks' contributions are reduced in
+        auto f = [](hep::mc_point<T> const& p) { return std::floor(p.point()[0] * T(4)) * std::floor(p.point()[1] * T(4)); };
+        auto c = in ? hep::make_plain_chkpt<T, E>(in) : hep::make_plain_chkpt<T, E>(E(5));
+        typedef decltype(c) C;
+        std::size_t done = c.results().size();
+        std::vector<std::size_t> calls(niter > done ? niter - done : 0, 100);
+        std::vector<std::string> texts(3);
+        vt_mpi_run(3, 11, [&](MPI_Comm comm, int rank) {
+            C r = hep::mpi_plain(comm, hep::make_integrand<T>(f, 2), calls, c,
+                marking_mpi_cb<C>{hep::mpi_callback<C>(hep::callback_mode::silent_and_write_chkpt, file)});
+            texts[(std::size_t) rank] = text_of(r);
+        }, false);
+        final_text = texts[0];
+    }
+#endif
     else if (kind == "vegas")
     {
         // large checkpoint (far above the stream buffer size): 128 bins x 3 dimensions, mt19937
